@@ -32,7 +32,7 @@ META = {
         "sync tasks run on a fake executor (completion is an explorer event; no real thread)",
         "StopIteration/StopAsyncIteration outcomes are excluded: CPython converts them before taskiq sees them",
     ],
-    "required_counters": ["scenarios", "terminal_states", "results_checked"],
+    "required_counters": ["wiring_cases", "scenarios", "terminal_states", "results_checked"],
     "bounds": {"quick": {"n_max": 2, "L1": "timeout races"}, "thorough": {"n_max": 3, "L1": "timeout races, pairs", "L2": "single timeout race"}},
 }
 
@@ -194,6 +194,10 @@ def scenarios(tier: str) -> List[Dict[str, Any]]:
 
 
 def shards(tier: str, seed: int) -> List[Any]:
+    return _shards(tier, seed) + [[{"wiring": "C07"}]]
+
+
+def _shards(tier: str, seed: int) -> List[Any]:
     scs = scenarios(tier)
     if tier == "thorough":
         mark_stateless(scs, 8, 12)
@@ -207,6 +211,12 @@ def _per(sc: Dict[str, Any], res: Any, acc: Acc) -> None:
 
 
 def run_shard(shard: List[Dict[str, Any]]) -> Dict[str, Any]:
+    if shard and shard[0].get("wiring"):
+        from mc.cli_wiring import check_worker_wiring
+
+        acc = Acc()
+        check_worker_wiring("C07", acc)
+        return acc.as_dict()
     return run_scenarios("C07", shard, C07World, per_scenario=_per).as_dict()
 
 
